@@ -302,6 +302,19 @@ class ReaderModel(object):
                         except P.Unfoldable:
                             return None
                     return out
+            if isinstance(n, (ast.GeneratorExp, ast.ListComp, ast.SetComp, ast.DictComp)) and any(x is key for x in ast.walk(n)):
+                # key built in a comprehension over a literal sequence
+                for gen in n.generators:
+                    if isinstance(gen.target, ast.Name) and gen.target.id in names:
+                        items = self.py.try_fold(gen.iter, self.mod)
+                        if items is not None:
+                            out = []
+                            for it in items:
+                                try:
+                                    out.append(self.py.fold(key, self.mod, {gen.target.id: it}))
+                                except P.Unfoldable:
+                                    return None
+                            return out
         return None
 
     def param_keys(self, key, f):
